@@ -582,8 +582,20 @@ def run_session(v, built, mdefs, logon_d, logon_a, reply, sends, bad_sends, hb_w
             n0 = len(tr.writes)
             try:
                 msg = fc.make_message(built, d, m)
+                pre_b = image(msg)
                 s.send_msg(msg)
-                res['bad_outcomes'].append(('ok', len(tr.writes) - n0))
+                # round 9 (C14m): a send the model refuses went through — what was written must still read back as what was sent
+                rb = None
+                if len(tr.writes) - n0 == 1:
+                    try:
+                        rd = fix.FixMessageReader('rxb', None, None)
+                        rd._task.cancel()
+                        rd.on_data(tr.writes[-1][1])
+                        back, _stop, _skip = rd.deserialize()
+                        rb = (None if back is None else image(back), bytes(rd._buffer))
+                    except Exception as e:  # noqa
+                        rb = (('raises', err_name(e)), b'')
+                res['bad_outcomes'].append(('ok', len(tr.writes) - n0, pre_b, rb, tr.writes[-1][1] if len(tr.writes) > n0 else b''))
             except Exception as e:  # noqa
                 res['bad_outcomes'].append(('err ' + err_name(e), len(tr.writes) - n0))
         res['frames'] = [b for _, b in tr.writes]
@@ -1028,6 +1040,19 @@ def run_plan_inner(ctx, rng, plan, pending, found):
         exp = oc[0] if oc[0].startswith('err') else None
         if exp is not None:
             pending.append((line, exp, f'fix.frame on a {kind} message', dict(rep_base, bad=sx(fc.msg_sx(m)))))
+        if oc[0] == 'ok':
+            # the library sent a message the model refuses: the correspondence is broken (reported through the model line below),
+            # and the property itself is checked on the frame: one frame, read back by the library's reader as what was sent
+            pending.append((line, 'ok', f'fix.frame on a {kind} message the library sent', dict(rep_base, bad=sx(fc.msg_sx(m)))))
+            pre_b, rb, fr = oc[2], oc[3], oc[4]
+            def body_of(c):
+                return c.get('body') if isinstance(c, dict) else c
+            if oc[1] != 1:
+                found.append((f'a {kind} message was sent as {oc[1]} frames', dict(rep_base, bad=sx(fc.msg_sx(m)), finding='bad-send-frames')))
+            elif rb is None or rb[0] is None or rb[1] or body_of(rb[0]) != body_of(pre_b):
+                found.append((f'a {kind} message was written as {fr.hex()} which the library\'s reader does not read back as what was sent: '
+                              f'sent body {str(body_of(pre_b))[:200]}  read {str(None if rb is None else body_of(rb[0]))[:200]}',
+                              dict(rep_base, bad=sx(fc.msg_sx(m)), frame=fr.hex(), finding='bad-send-readback')))
         if oc[1] != 0 and oc[0].startswith('err'):
             found.append((f'a send that raised ({oc[0]}) still wrote {oc[1]} frame(s)', dict(rep_base, finding='write-on-error')))
     # ---- read back
